@@ -14,7 +14,7 @@ from vt import contract as K
 from vt.verify import Clause
 from vt import verify as V
 from contracts import gmm as G
-from props.common import new_interp, collapse, guard
+from props.common import new_interp, collapse, guard, bounded
 from props.loopvc import RowChunks, GridChunks
 
 FUNCTIONS = ["utils.check_and_persist_dask_input", "utils.array_to_delayed_list", "gmm.GMMMachine.fit (Dask branch)", "kmeans.KMeansMachine.fit (Dask branch)",
@@ -83,6 +83,8 @@ def partition(ctx):
 
 
 GROUPS = [guard(partition)]
+BOUNDED = [bounded("fa_repro.py", "array_vs_list", "C04.fa.byclass",
+                   "ISV/JFA fit_using_array on a Dask array (3 chunkings, chunks mixing classes) equals the NumPy result in U, V, D (float64, rel. tol. 1e-8)")]
 SHARED = [("C02", "split_lemma", ["C02.split"]),
           ("C03", "loop_thr_max", ["C03.loop.body[thr=set,max=set]"]), ("C05", "loop_map", ["C05.loop.body[thr=set,max=set]"]),
           ("C06", "loop_thr_max", ["C06.loop.body[thr=set,max=set]"]), ("C06", "lemmas", ["C06.crit", "C06.centroid.mean"]),
